@@ -5,6 +5,16 @@
      q <slots: comma separated name ids, '-' = free, "empty" = no slots> <func> <a1>
         func: get_null|get_m1|get_huge|find|delete|prop_m1|prop_null|add
         -> "<ret> <errno> <callbacks> <slots after> [<index>]"
+     na <type> <rows> <cols> <freqs>                                  vnacal_new_alloc
+     nf <freqs> <fv: null | q,q,..>  (q = p/d or nan)                 vnacal_new_set_frequency_vector
+     nx <pv|et|pt> <q>   |  nx it <int>                               scalar setters
+     nm <type> <freqs> <fvalid> <n> <fv> <nf> <tr>                    vnacal_new_set_m_error (calibration range 1..3)
+     nd <type> <rows> <cols> <b_null> <a_rows> <a_cols> <b_rows> <b_cols> <s_rows> <s_cols> <map: null | p,p,..>
+        <cells: h,h,..> <a singular 0|1>                              _vnacal_new_add_common (handles 0..5 valid)
+     ns <fvalid> <kernel: - | MATH>                                   vnacal_new_solve
+     pp <null 0|1> <mv n fv gnull | mu h | mc h n fv sigma | dl h | gv h q>
+        parameter family on the table [predefined x 3; scalar; vector 3 points 1..3; unknown; deleted]
+     cv <null 0|1> <type> <rows> <cols> <out null 0|1> <newtype>      vnadata_convert
      g          -> the five generated flags this executable was extracted with (z0 port tests, add_common order)
      e <code>   -> errno class of category code
      r <registered handles, comma separated> <unknowns> <cells, comma separated>
@@ -54,6 +64,18 @@ let dcall f a1 a2 a3 a4 =
 let sum_s s = Printf.sprintf "%s,%s,%s,%s,%d" (iz s.d_type) (iz s.d_rows) (iz s.d_cols) (iz s.d_freqs) (if s.d_fz0 then 1 else 0)
 let slots_of s = if s = "empty" then [] else List.map (fun x -> if x = "-" then None else Some (zi x)) (String.split_on_char ',' s)
 let slots_s l = if l = [] then "empty" else String.concat "," (List.map (function None -> "-" | Some z -> iz z) l)
+let q_of_string (x : string) : q =
+  match String.index_opt x '/' with
+  | None -> { qnum = zi x; qden = XH }
+  | Some i -> { qnum = zi (String.sub x 0 i); qden = pos_of_z (ZZ.of_string (String.sub x (i + 1) (String.length x - i - 1))) }
+let dval_of x = if x = "nan" then None else Some (q_of_string x)
+let dlist x = if x = "null" then None else Some (if x = "empty" then [] else List.map dval_of (String.split_on_char ',' x))
+let zlist x = if x = "empty" then [] else List.map zi (String.split_on_char ',' x)
+let valid05 h = let v = z_of_coqz h in ZZ.sign v >= 0 && ZZ.leq v (ZZ.of_int 5)
+let new0 = { n_registered = [Z0]; n_unknowns = Z0; n_measurements = Z0 }
+let nsum t r c f fv me = { v_type = t; v_rows = r; v_cols = c; v_freqs = f; v_fvalid = fv; v_merror = me; v_params = new0 }
+let qi n = { qnum = coqz_of_z (ZZ.of_int n); qden = XH }
+let ptab = [PScalarP; PScalarP; PScalarP; PScalarP; PVectorP (zi "3", qi 1, qi 3); PUnknownP (None, Some ((zi "3", qi 1), qi 3)); PFree]
 let () =
   try
     while true do
@@ -91,6 +113,44 @@ let () =
           let s0 = { n_registered = ints t.(1); n_unknowns = zi t.(2); n_measurements = Z0 } in
           let (s1, o) = add_standard_current valid unknown s0 (ints t.(3)) in
           Printf.printf "%s %d %s %s\n" (outcome_s o) (List.length s1.n_registered) (iz s1.n_unknowns) (iz s1.n_measurements)
+        | "na" -> Printf.printf "%s\n" (outcome_s (check_new_alloc (zi t.(1)) (zi t.(2)) (zi t.(3)) (zi t.(4))))
+        | "nf" ->
+          let s = nsum Z0 (zi "2") (zi "2") (zi t.(1)) false false in
+          Printf.printf "%s\n" (outcome_s (check_new valid05 (Some s) (NSetFv (dlist t.(2), false))))
+        | "nx" ->
+          let s = nsum Z0 (zi "2") (zi "2") (zi "3") true false in
+          let c = (match t.(1) with
+              | "pv" -> NSetPvalue (dval_of t.(2)) | "et" -> NSetEtTol (dval_of t.(2)) | "pt" -> NSetPTol (dval_of t.(2))
+              | _ -> NSetIter (zi t.(2))) in
+          Printf.printf "%s\n" (outcome_s (check_new valid05 (Some s) c))
+        | "nm" ->
+          let s = nsum (zi t.(1)) (zi "2") (zi "2") (zi t.(2)) (t.(3) = "1") false in
+          let c = NSetMError (gen_f_extrapolation, qi 1, qi 3, zi t.(4), dlist t.(5), dlist t.(6), dlist t.(7), false) in
+          Printf.printf "%s\n" (outcome_s (check_new valid05 (Some s) c))
+        | "nd" ->
+          let s = nsum (zi t.(1)) (zi t.(2)) (zi t.(3)) (zi "3") true false in
+          let a = { aa_b_null = (t.(4) = "1");
+                    aa_a = (if t.(5) = "0" && t.(6) = "0" then None else Some (zi t.(5), zi t.(6)));
+                    aa_b_rows = zi t.(7); aa_b_cols = zi t.(8); aa_s_rows = zi t.(9); aa_s_cols = zi t.(10);
+                    aa_map = (if t.(11) = "null" then None else Some (zlist t.(11)));
+                    aa_cells = zlist t.(12); aa_a_singular = (t.(13) = "1"); aa_s_incomplete = false } in
+          Printf.printf "%s\n" (outcome_s (check_new valid05 (Some s) (NAdd a)))
+        | "ns" ->
+          let s = nsum Z0 (zi "2") (zi "2") (zi "3") (t.(1) = "1") false in
+          Printf.printf "%s\n" (outcome_s (check_new valid05 (Some s) (NSolve (if t.(2) = "MATH" then Some MATH else None))))
+        | "pp" ->
+          let h = if t.(1) = "1" then None else Some ptab in
+          let c = (match t.(2) with
+              | "ms" -> PMakeScalar
+              | "mv" -> PMakeVector (zi t.(3), dlist t.(4), t.(5) = "1")
+              | "mu" -> PMakeUnknown (zi t.(3))
+              | "mc" -> PMakeCorrelated (zi t.(3), zi t.(4), dlist t.(5), dlist t.(6))
+              | "dl" -> PDelete (zi t.(3))
+              | _ -> PGetValue (gen_f_extrapolation, zi t.(3), dval_of t.(4))) in
+          Printf.printf "%s\n" (outcome_s (check_param h c))
+        | "cv" ->
+          let s = { d_type = zi t.(2); d_rows = zi t.(3); d_cols = zi t.(4); d_freqs = zi "1"; d_fz0 = false } in
+          Printf.printf "%s\n" (outcome_s (check_convert (if t.(1) = "1" then None else Some s) (t.(5) = "1") (zi t.(6))))
         | "g" ->
           (* the facts taken from the C text that are baked into this executable *)
           let b x = if x then "1" else "0" in
